@@ -11,7 +11,8 @@ from ..refmodel import compare
 
 RULE = (
     "every program (sequence of public factory calls, operands of chain drawn from a fixed pool) over the listed "
-    "alphabet up to the depth bound, from every root leaf configuration; one evaluation = one real factory call "
+    "alphabet up to the depth bound, from every root leaf configuration, plus every program of depth <= 2 over a "
+    "19-operation alphabet from EVERY leaf row list of length <= 2 (thorough 3) over a 2x2x2 value cube; one evaluation = one real factory call "
     "followed by iteration.Engine.execute and list comparison with the reference evaluator; non-trivial = the call "
     "did not simply append one operation node to its parent tree (a merge, elision, no-op shortcut or operand "
     "rewrite fired); distinct = distinct (tree, rows) digests"
@@ -24,12 +25,16 @@ class C01(Check):
     def subspaces(self, tier):
         w = spaces.it_world()
         if tier == "quick":
+            dw, droots = spaces.it_data_world(2)
             subs = [SubSpace("it/full/d3", w, spaces.IT_ROOTS_ALL, spaces.IT_FULL, 3)]
             subs.append(SubSpace("it/reduced/L/d4", w, ("L",), spaces.IT_REDUCED, 4))
+            subs.append(SubSpace("itdata/all-lists<=2/d2", dw, droots, spaces.IT_DATA_OPS, 2))
         else:
+            dw, droots = spaces.it_data_world(3)
             subs = [SubSpace("it/full/d3", w, spaces.IT_ROOTS_ALL[1:], spaces.IT_FULL, 3)]
             subs.append(SubSpace("it/full/L/d4", w, ("L",), spaces.IT_FULL, 4))
             subs.append(SubSpace("it/reduced/L/d5", w, ("L",), spaces.IT_REDUCED, 5))
+            subs.append(SubSpace("itdata/all-lists<=3/d2", dw, droots, spaces.IT_DATA_OPS, 2))
         return subs
 
     def judge(self, tr):
